@@ -345,6 +345,194 @@ func init() {
 			}
 		}
 
+
+		// round 4c: what the stage closures can remember.  For each simple helper: the identifiers the closure uses that
+		// are declared in the enclosing function (parameters, `:=`, `var`) or as package-level variables of the file
+		// (prefix `pkg:`), and every statement of the closure that can write memory outliving one evaluation:
+		// assignments / ++ / -- whose target is not declared inside the closure, method calls on such a variable
+		// (`x.Store(…)`, `x.Lock()` …; `args[i](context)` is a call OF the captured stage, not a method), `go`, sends.
+		{
+			var caps, writes []string
+			good := true
+			for _, p := range [][2]string{{"timeformat", "kfTimeFormat"}, {"duration", "kfDuration"}, {"durationformat", "kfDurationFormat"}, {"timeattr", "kfTimeAttr"}} {
+				fd := c.Func(file, p[1])
+				if fd == nil || fd.Body == nil {
+					good = false
+					break
+				}
+				var fl *ast.FuncLit
+				ast.Inspect(fd.Body, func(n ast.Node) bool {
+					if l, isLit := n.(*ast.FuncLit); isLit && fl == nil {
+						fl = l
+						return false
+					}
+					return fl == nil
+				})
+				if fl == nil {
+					good = false
+					break
+				}
+				inside := func(n ast.Node) bool { return n.Pos() >= fl.Pos() && n.End() <= fl.End() }
+				outer := map[string]bool{} // declared in the enclosing function, outside the closure
+				if fd.Type.Params != nil {
+					for _, f := range fd.Type.Params.List {
+						for _, id := range f.Names {
+							outer[id.Name] = true
+						}
+					}
+				}
+				inner := map[string]bool{} // declared inside the closure
+				if fl.Type.Params != nil {
+					for _, f := range fl.Type.Params.List {
+						for _, id := range f.Names {
+							inner[id.Name] = true
+						}
+					}
+				}
+				declare := func(n ast.Node, name string) {
+					if name == "_" {
+						return
+					}
+					if inside(n) {
+						inner[name] = true
+					} else {
+						outer[name] = true
+					}
+				}
+				ast.Inspect(fd.Body, func(n ast.Node) bool {
+					switch v := n.(type) {
+					case *ast.AssignStmt:
+						if v.Tok == token.DEFINE {
+							for _, l := range v.Lhs {
+								if id, isId := l.(*ast.Ident); isId {
+									declare(v, id.Name)
+								}
+							}
+						}
+					case *ast.ValueSpec:
+						for _, id := range v.Names {
+							declare(v, id.Name)
+						}
+					case *ast.RangeStmt:
+						if v.Tok == token.DEFINE {
+							for _, e := range []ast.Expr{v.Key, v.Value} {
+								if id, isId := e.(*ast.Ident); isId {
+									declare(v, id.Name)
+								}
+							}
+						}
+					}
+					return true
+				})
+				pkgVar := func(name string) bool { // a package-level `var` of the file (constants and tables included)
+					f := c.File(file)
+					if f == nil {
+						return false
+					}
+					for _, d := range f.Decls {
+						gd, isGen := d.(*ast.GenDecl)
+						if !isGen || gd.Tok != token.VAR {
+							continue
+						}
+						for _, sp := range gd.Specs {
+							for _, id := range sp.(*ast.ValueSpec).Names {
+								if id.Name == name {
+									return true
+								}
+							}
+						}
+					}
+					return false
+				}
+				var root func(e ast.Expr) string
+				root = func(e ast.Expr) string {
+					switch v := e.(type) {
+					case *ast.Ident:
+						return v.Name
+					case *ast.SelectorExpr:
+						return root(v.X)
+					case *ast.IndexExpr:
+						return root(v.X)
+					case *ast.StarExpr:
+						return root(v.X)
+					case *ast.ParenExpr:
+						return root(v.X)
+					case *ast.UnaryExpr:
+						return root(v.X)
+					}
+					return ""
+				}
+				foreign := func(name string) bool { return name != "" && !inner[name] && (outer[name] || pkgVar(name)) }
+				used := map[string]bool{}
+				var ws []string
+				ast.Inspect(fl.Body, func(n ast.Node) bool {
+					switch v := n.(type) {
+					case *ast.SelectorExpr: // x.f: only x is a use
+						ast.Inspect(v.X, func(m ast.Node) bool {
+							if id, isId := m.(*ast.Ident); isId && !inner[id.Name] {
+								if outer[id.Name] {
+									used[id.Name] = true
+								} else if pkgVar(id.Name) {
+									used["pkg:"+id.Name] = true
+								}
+							}
+							return true
+						})
+						return false
+					case *ast.Ident:
+						if !inner[v.Name] {
+							if outer[v.Name] {
+								used[v.Name] = true
+							} else if pkgVar(v.Name) {
+								used["pkg:"+v.Name] = true
+							}
+						}
+					}
+					return true
+				})
+				ast.Inspect(fl.Body, func(n ast.Node) bool {
+					switch v := n.(type) {
+					case *ast.AssignStmt:
+						if v.Tok != token.DEFINE {
+							for _, l := range v.Lhs {
+								if foreign(root(l)) {
+									ws = append(ws, squash(v))
+									break
+								}
+							}
+						}
+					case *ast.IncDecStmt:
+						if foreign(root(v.X)) {
+							ws = append(ws, squash(v))
+						}
+					case *ast.CallExpr:
+						if sel, isSel := v.Fun.(*ast.SelectorExpr); isSel && foreign(root(sel.X)) {
+							ws = append(ws, squash(v))
+						}
+					case *ast.GoStmt:
+						ws = append(ws, squash(v))
+					case *ast.SendStmt:
+						ws = append(ws, squash(v))
+					}
+					return true
+				})
+				var us []string
+				for k := range used {
+					us = append(us, k)
+				}
+				sort.Strings(us)
+				caps = append(caps, fmt.Sprintf("(%s, %s)", leanStr(p[0]), leanStrList(us)))
+				writes = append(writes, fmt.Sprintf("(%s, %s)", leanStr(p[0]), leanStrList(ws)))
+			}
+			if good {
+				fmt.Fprintf(&sb, "/-- what the stage closure of each simple helper captures: identifiers used inside it that are declared in the enclosing\nfunction or as package-level variables of the file (`pkg:`), sorted -/\ndef stageCaptures : List (String × List String) := [\n  %s]\n\n", strings.Join(caps, ",\n  "))
+				fmt.Fprintf(&sb, "/-- the statements of each stage closure that can write memory outliving one evaluation (assignments / ++ / -- to, and\nmethod calls on, variables not declared inside the closure; `go`; channel sends), as source text -/\ndef stageWrites : List (String × List String) := [\n  %s]\n\n", strings.Join(writes, ",\n  "))
+			} else {
+				sb.WriteString(untranslatable("stageCaptures"))
+				sb.WriteString(untranslatable("stageWrites"))
+			}
+		}
+
 		for _, fn := range []string{"namedTimeFormatToFormat", "smartDateParseWrapper", "kfTimeParse", "kfTimeFormat", "kfDuration", "kfDurationFormat",
 			"timeBucketToFormat", "kfBucketTime", "kfTimeAttr", "parseTimezoneLocation"} {
 			c.Fingerprint(file, fn)
